@@ -43,20 +43,21 @@ func (g pgen) str() string {
 		return string(g.r.Bytes(g.r.Intn(24)))
 	}
 }
+// every []byte / slice / map field: nil 1/4, empty but non-nil 1/4, data 1/2
 func (g pgen) opt() []byte {
-	switch g.r.Intn(5) {
-	case 0:
+	switch g.r.Intn(8) {
+	case 0, 1:
 		return nil
-	case 1:
+	case 2, 3:
 		return []byte{}
-	case 2:
+	case 4:
 		return g.r.Bytes(4)
 	default:
-		return g.r.Bytes(g.r.Intn(40))
+		return g.r.Bytes(1 + g.r.Intn(40))
 	}
 }
 func (g pgen) msize() int {
-	return []int{0, 0, 1, 1, 2, 3, 5, 9, 40}[g.r.Intn(9)]
+	return []int{0, 0, 0, 0, 1, 1, 2, 3, 5, 9, 40, 2}[g.r.Intn(12)]
 }
 func (g pgen) smap() map[uint64]string {
 	n := g.msize()
@@ -75,7 +76,10 @@ func (g pgen) smap() map[uint64]string {
 func (g pgen) bmap() map[uint64]bool {
 	n := g.msize()
 	if n == 0 {
-		return nil
+		if g.r.Bool() {
+			return nil
+		}
+		return map[uint64]bool{}
 	}
 	m := map[uint64]bool{}
 	for len(m) < n {
@@ -95,12 +99,21 @@ func (g pgen) sf() pb.SnapshotFile {
 func (g pgen) entry() pb.Entry {
 	e := parseEntry(strings.Fields(genEntry(g.r))[1:])
 	if len(e.Cmd) > 300 {
-		e.Cmd = e.Cmd[:g.r.Intn(300)]
+		e.Cmd = e.Cmd[:1+g.r.Intn(300)]
+	}
+	switch g.r.Intn(4) {
+	case 0:
+		e.Cmd = nil
+	case 1:
+		e.Cmd = []byte{}
 	}
 	return e
 }
 func (g pgen) entries() []pb.Entry {
-	n := []int{0, 0, 1, 1, 2, 3, 7}[g.r.Intn(7)]
+	n := []int{0, 0, 0, 0, 1, 1, 2, 3}[g.r.Intn(8)]
+	if n == 3 && g.r.Bool() {
+		n = 7
+	}
 	var es []pb.Entry
 	for i := 0; i < n; i++ {
 		es = append(es, g.entry())
@@ -117,9 +130,15 @@ func (g pgen) sn() pb.Snapshot {
 	s := pb.Snapshot{Filepath: g.str(), FileSize: g.u(), Index: g.u(), Term: g.u(), Membership: g.mb(),
 		Checksum: g.opt(), Dummy: g.r.Bool(), ShardID: g.u(), Type: pb.StateMachineType(g.i32(4)),
 		Imported: g.r.Bool(), OnDiskIndex: g.u(), Witness: g.r.Bool()}
-	for i := g.r.Intn(4); i > 0; i-- {
-		f := g.sf()
-		s.Files = append(s.Files, &f)
+	switch k := g.r.Intn(8); {
+	case k < 2:
+	case k < 4:
+		s.Files = []*pb.SnapshotFile{}
+	default:
+		for i := 1 + g.r.Intn(3); i > 0; i-- {
+			f := g.sf()
+			s.Files = append(s.Files, &f)
+		}
 	}
 	return s
 }
@@ -188,10 +207,16 @@ func (g pgen) value(ty string) (codec, string) {
 		c = &m
 	case "bt":
 		b := pb.MessageBatch{DeploymentId: g.u(), SourceAddress: g.str(), BinVer: uint32(g.u())}
-		for i := []int{0, 1, 1, 2, 4}[g.r.Intn(5)]; i > 0; i-- {
-			b.Requests = append(b.Requests, g.msg())
+		switch k := g.r.Intn(8); {
+		case k < 2:
+		case k < 4:
+			b.Requests = []pb.Message{}
+		default:
+			for i := []int{1, 1, 2, 4}[g.r.Intn(4)]; i > 0; i-- {
+				b.Requests = append(b.Requests, g.msg())
+			}
 		}
-		w.n(len(b.Requests))
+		w.cnt(len(b.Requests), b.Requests == nil)
 		for i := range b.Requests {
 			w.msg(&b.Requests[i])
 		}
@@ -264,7 +289,9 @@ func genProto(r *vh.Rand, w *vh.LineWriter, next int, tier string) int {
 			emit("PB %s%s", ty, toks)
 			if i%3 == 0 {
 				// the implementation's own bytes (random map order) through both decoders
-				if b, err := c.Marshal(); err == nil {
+				var b []byte
+				var err error
+				if p := vh.Catch(func() { b, err = c.Marshal() }); p == "" && err == nil {
 					emit("PBDEC %s %s", ty, vh.Hex(b))
 				}
 			}
@@ -273,9 +300,9 @@ func genProto(r *vh.Rand, w *vh.LineWriter, next int, tier string) int {
 	for _, ty := range noMapTypes {
 		for i := 0; i < per; i++ {
 			c, _ := g.value(ty)
-			b, err := c.Marshal()
-			must(err)
-			if len(b) > 200 {
+			var b []byte
+			var err error
+			if p := vh.Catch(func() { b, err = c.Marshal() }); p != "" || err != nil || len(b) > 200 {
 				continue
 			}
 			emit("PBDEC %s %s", ty, vh.Hex(mutate(r, b)))
@@ -305,8 +332,14 @@ func genProto(r *vh.Rand, w *vh.LineWriter, next int, tier string) int {
 		tw.u(u.ShardID); tw.u(u.ReplicaID); tw.state(&u.State); tw.entries(u.EntriesToSave); tw.sn(&u.Snapshot)
 		emit("UPD%s", tw.b.String())
 		if i%5 == 0 {
-			buf := make([]byte, u.SizeUpperLimit()+4096)
-			if n, err := u.MarshalTo(buf); err == nil && n < 400 {
+			var buf []byte
+			var n int
+			var err error
+			p := vh.Catch(func() {
+				buf = make([]byte, u.SizeUpperLimit()+4096)
+				n, err = u.MarshalTo(buf)
+			})
+			if p == "" && err == nil && n < 400 {
 				for _, cut := range []int{0, 1, n / 3, n / 2, n - 1, g.r.Intn(n + 1)} {
 					if cut >= 0 && cut <= n {
 						emit("UPDDEC %s", vh.Hex(buf[:cut]))
